@@ -1410,7 +1410,32 @@ def m_panic(I, st, fn, ce, args, line, depth, dest_ty, may_unwind):
     return [("unwind", None, st)]
 
 
+def m_for_each_opaque(I, st, fn, ce, args, line, depth, dest_ty, may_unwind):
+    """`iter.for_each(closure)` over an unmodelled iterator: the closure runs 0, 1 or 2 times on opaque elements
+    (same bound as the loop cut); the event trace shows what one iteration does."""
+    it, cl = args[0], args[1]
+    inner = cl
+    if not (inner[0] == "agg" and inner[1] == "closure"):
+        return None
+    I.emit(st, {"k": "CALL", "def": ce["def"], "base": ce["def"], "args": [it]}, fn, line)
+    outs = [("ret", UNIT, st.fork())]
+    cur = [st]
+    for rnd in range(2):
+        nxt = []
+        for s in cur:
+            el = I.fresh_op(s, "el")
+            for kind, val, s2 in I.call_value(s, cl, [el], fn, line, depth, None, may_unwind):
+                if kind == "ret":
+                    outs.append(("ret", UNIT, s2.fork()))
+                    nxt.append(s2)
+                else:
+                    outs.append((kind, val, s2))
+        cur = nxt
+    return outs
+
+
 MODELS = {
+    "std::iter::Iterator::for_each": m_for_each_opaque,
     "std::mem::drop": m_mem_drop,
     "std::mem::forget": m_mem_forget,
     "core::bool::<impl bool>::then_some": m_then_some,
